@@ -54,6 +54,19 @@ def _keytext(s):
         return v
     if isinstance(s, ast.JoinedStr):
         return "".join(p.value if isinstance(p, ast.Constant) else "{}" for p in s.values)
+    if isinstance(s, ast.BinOp) and isinstance(s.op, ast.Add):
+        # "prefix" + str(i)  /  "prefix%d" % i  are the same key family as f"prefix{i}"
+        l, r = _keytext(s.left), _keytext(s.right)
+        if l is not None or r is not None:
+            return (l if l is not None else "{}") + (r if r is not None else "{}")
+    if isinstance(s, ast.BinOp) and isinstance(s.op, ast.Mod) and isinstance(const_value(s.left), str):
+        import re
+
+        return re.sub(r"%[0-9]*[ds]", "{}", const_value(s.left))
+    if isinstance(s, ast.Call) and isinstance(s.func, ast.Attribute) and s.func.attr == "format" and isinstance(const_value(s.func.value), str):
+        import re
+
+        return re.sub(r"\{[^}]*\}", "{}", const_value(s.func.value))
     return None
 
 
